@@ -866,7 +866,7 @@ def shadow_input(name):
 
 
 def shadow_probe(chk):
-    """D28: an RPC whose python name equals an instance attribute of ServiceStub cannot be called through the stub"""
+    """D44: an RPC whose python name equals an instance attribute of ServiceStub cannot be called through the stub"""
     for name in ("Timeout", "Deadline", "Metadata", "Channel"):
         inp = shadow_input(name)
         chk.case("shadow " + name, True, {"method": name})
